@@ -209,6 +209,27 @@ func c33PathClass(line string) string {
 
 // ---------------------------------------------------------------- evaluation of one input
 
+// c33PanicSite names the innermost gossamer frame of a verifmc.Guard message ("pkg.(*T).Method").
+func c33PanicSite(msg string) string {
+	lines := strings.Split(msg, "\n")
+	seen := false
+	for _, l := range lines {
+		if strings.HasPrefix(l, "panic(") {
+			seen = true
+			continue
+		}
+		if !seen || !strings.Contains(l, "github.com/ChainSafe/gossamer/") || strings.Contains(l, "internal/verifmc") || strings.HasPrefix(l, "\t") {
+			continue
+		}
+		fn := l[strings.LastIndex(l, "/")+1:]
+		if k := strings.LastIndex(fn, "("); k > 0 {
+			fn = fn[:k]
+		}
+		return fn
+	}
+	return "unknown"
+}
+
 // c33DeepSize sums the payload bytes reachable from v (slices, strings, arrays of scalars); it stops
 // as soon as the sum exceeds limit.
 func c33DeepSize(v reflect.Value, limit, depth int) int {
@@ -275,7 +296,7 @@ func c33EvalOne(d *C33Decoder, in []byte) (ev c33Eval) {
 	var err error
 	cp := append([]byte{}, in...)
 	if p, pm := verifmc.Guard(func() { msg, err = d.Decode(cp) }); p {
-		site := verifmc.PanicSite(pm)
+		site := c33PanicSite(pm)
 		return c33Eval{outcome: "panic", sig: d.Name + ":panic:" + site,
 			desc: fmt.Sprintf("%s panics on %d-byte input %s\n%s", d.Name, len(in), c33Short(in), pm)}
 	}
@@ -308,7 +329,7 @@ func c33EvalOne(d *C33Decoder, in []byte) (ev c33Eval) {
 	ev.dumpLines = len(dump1)
 	var enc []byte
 	if p, pm := verifmc.Guard(func() { enc, err = d.Encode(msg) }); p {
-		return c33Eval{outcome: "re-encode-panics", sig: d.Name + ":re-encode-panics:" + verifmc.PanicSite(pm),
+		return c33Eval{outcome: "re-encode-panics", sig: d.Name + ":re-encode-panics:" + c33PanicSite(pm),
 			desc: fmt.Sprintf("%s: message decoded from %s panics when encoded again\n%s", d.Name, c33Short(in), pm)}
 	}
 	if err != nil {
@@ -318,7 +339,7 @@ func c33EvalOne(d *C33Decoder, in []byte) (ev c33Eval) {
 	var msg2 any
 	enc2 := append([]byte{}, enc...)
 	if p, pm := verifmc.Guard(func() { msg2, err = d.Decode(enc2) }); p {
-		return c33Eval{outcome: "re-decode-panics", sig: d.Name + ":panic:" + verifmc.PanicSite(pm),
+		return c33Eval{outcome: "re-decode-panics", sig: d.Name + ":panic:" + c33PanicSite(pm),
 			desc: fmt.Sprintf("%s panics on its own re-encoding %s of the message decoded from %s\n%s", d.Name, c33Short(enc), c33Short(in), pm)}
 	}
 	if err != nil {
